@@ -6,7 +6,7 @@ CONSTANTS
   PumpLen = 8192
   Pump2Toks = 12
   Pump2Len = 2048
-  Modes = {"seq", "gram", "sweep", "pump", "pump2", "table"}
+  Modes = {"seq", "gram", "target", "sweep", "pump", "pump2", "table"}
 INIT Init
 NEXT Next
 CHECK_DEADLOCK FALSE
